@@ -6,14 +6,16 @@ import MotoModel.Proofs.TapeRead
 namespace Moto.Tape
 open Moto
 
-/-- what the reader needs of an archived name: the padded fields strip back to it, and the file
-    name `NAME.EXT` is an ordinary directory entry -/
+/-- what the reader needs of an archived name: the padded fields strip back to it, the file
+    name `NAME.EXT` is an ordinary directory entry, and its bytes are ascii (a leader name with a byte ≥ 0x80 makes the real tool
+    stop with `UnicodeDecodeError`: the model's `descOfBlock` is about ascii leaders only) -/
 structure NameOK (name ext : Str) : Prop where
   name_strip : strip (Spec.K7.pad 8 name) = name
   ext_strip : strip (Spec.K7.pad 3 ext) = ext
   no_slash : (name ++ [46] ++ ext).contains 47 = false
   openable : openable (name ++ [46] ++ ext) = true
   no_nul : (name ++ [46] ++ ext).contains 0 = false
+  ascii : ∀ c ∈ name ++ ext, c < 128
 
 /-- frames of one file whose content is cut into `chunks` -/
 def fileFrames (name ext : Str) (kind mode : Nat) (chunks : List Bytes) : List Bytes :=
